@@ -5,6 +5,8 @@ CONSTANTS
   Window = 1
   MaxRetries = 3
   MaxOps = 6
+  AtomicSave = TRUE
+  MaxCalls = 0
   GenHist = FALSE
 INIT Init
 NEXT Next
